@@ -9,6 +9,7 @@ import NrDaemon.Driver.Proc
 import NrDaemon.Driver.Limiter
 import NrDaemon.Driver.Json
 import NrDaemon.Driver.Config
+import NrDaemon.Driver.Redact
 /-!
   Op-line driver (core Lean only; built as a `lean_exe`).
 
@@ -39,6 +40,8 @@ def dispatch (st : DState) (line : String) (impl : Option String) : DState × St
   | some "json" => (st, jsonStep t impl)
   | some "cfg" => (st, cfgStep t impl)
   | some "flags" => (st, flagsStep t impl)
+  | some "argv" => (st, argvStep t impl)
+  | some "redact" => (st, redactStep t impl)
   | some "reset" => ({}, { model := "ok" })
   | _ => (st, { model := "bad-op" })
 
